@@ -282,6 +282,17 @@ func (x *Exec) verify(fn *ssa.Function, c *Contract) {
 	}
 	x.runBlock(st, fr, fn.Blocks[0], nil, func(s *State, res []*Val, pan *Val) {
 		e2 := exitEnv(s, res, pan)
+		if os.Getenv("VCGEN_TRACE") != "" {
+			var names []string
+			for _, ev := range s.trace {
+				names = append(names, ev.Short)
+			}
+			kind := "return"
+			if pan != nil {
+				kind = "panic"
+			}
+			fmt.Fprintf(os.Stderr, "TRACE %s %s: %s\n", c.Short, kind, strings.Join(names, " | "))
+		}
 		if pan != nil {
 			// panic exit
 			if panicCond == nil {
